@@ -134,6 +134,14 @@ def fineStorage (p : StorageP) (ref : Grid) (cg : CoarseGrid) (prices : Prices) 
 def cumWeight (owner : List Nat) (w : List Rat) (k : Nat) : Rat :=
   (((List.range (k + 1)).filter fun s => owner.getD s 0 == owner.getD k 0).map fun s => w.getD s 0).sum
 
+/-- `x` carries, in its two blocks of dispatch variables (`disp | -` or `disp_in | disp_out`, `Tf` = number of fine steps
+    each), the expansion of the coarse point `z` (blocks of `Tc` variables): fine step `k` of coarse step `owner k` gets
+    the share `w k = dt_fine/dt_coarse` of the coarse volume.  `expand … z` and `expandNS … z` are such points
+    (`EAO.CoarseStorage.isExpansion_expand`, `isExpansion_expandNS`); further blocks (booleans) are not constrained. -/
+def IsExpansion (ref : Grid) (cg : CoarseGrid) (z x : Vec) : Prop :=
+  ∀ b, b < 2 → ∀ k, k < cg.owner.length →
+    x (cg.owner.length * b + k) = z (cg.grid.T * b + cg.owner.getD k 0) * (cg.weights ref.dt).getD k 0
+
 /-- a coarse point of a storage with the no-simultaneous option (`disp_in | disp_out | bool_1`, `Tc` variables each)
     expanded to the fine variables: the two dispatch blocks as `expand` does (share `dt_fine/dt_coarse` of the coarse
     volume), the block of booleans by copying the coarse step's value to each of its fine steps -/
